@@ -22,7 +22,7 @@ func (l *Loader) reportResponseCacheError(err error) {
 	}
 }
 
-func responseCacheSelectionHash(header, footer []byte) uint64 {
+func responseCacheSelectionHash(header, footer []byte, undefinedVariables []string) uint64 {
 	d := pool.Hash64.Get()
 	defer pool.Hash64.Put(d)
 	_, _ = d.Write(header)
@@ -30,6 +30,13 @@ func responseCacheSelectionHash(header, footer []byte) uint64 {
 	// start of the footer cannot go unnoticed.
 	_, _ = d.Write([]byte{0})
 	_, _ = d.Write(footer)
+	// An undefined variable is rendered as null and only later removed from the
+	// request, so without its name here "absent" and "explicit null" would share a key
+	// although the subgraph answers them differently (argument defaults).
+	for _, name := range undefinedVariables {
+		_, _ = d.Write([]byte{0})
+		_, _ = d.WriteString(name)
+	}
 	return d.Sum64()
 }
 
